@@ -114,17 +114,35 @@ fn minmax(v: &RV, min: bool) -> Exp {
     if xs.iter().any(|x| x.num().unwrap().is_nan()) {
         return Exp::Any; // not claimed in the presence of NaN
     }
-    let best = xs
-        .iter()
-        .map(|x| x.num().unwrap())
-        .fold(if min { f64::INFINITY } else { f64::NEG_INFINITY }, |a, b| if min { a.min(b) } else { a.max(b) });
-    // an argument that is numerically smallest/largest under the language's mixed comparison (both to f64), type kept
-    Exp::Alt(
-        xs.into_iter()
-            .filter(|x| x.num().unwrap() == best)
-            .map(Exp::V)
-            .collect(),
-    )
+    // `y` is strictly better than `x`: two integers compare exactly, anything involving a float compares as the
+    // language's own mixed comparison does (both converted to f64), so an int and a float that tie after conversion
+    // are both acceptable answers
+    let better = |y: &RV, x: &RV| -> bool {
+        match (y, x) {
+            (RV::Int(a), RV::Int(b)) => {
+                if min {
+                    a < b
+                } else {
+                    a > b
+                }
+            },
+            _ => {
+                let (a, b) = (y.num().unwrap(), x.num().unwrap());
+                if min {
+                    a < b
+                } else {
+                    a > b
+                }
+            },
+        }
+    };
+    // an argument (type kept) such that no argument is strictly better
+    let ok: Vec<Exp> = xs.iter().filter(|x| !xs.iter().any(|y| better(y, x))).cloned().map(Exp::V).collect();
+    if ok.is_empty() {
+        // the mixed relation is not transitive; if it leaves no candidate, nothing is claimed
+        return Exp::Any;
+    }
+    Exp::Alt(ok)
 }
 
 /// rendering documented by the pinned test: ("a", 3.3, 3, (42, 4.2), (), true); top-level strings unquoted
